@@ -27,6 +27,8 @@ FORMULAS = {  # name -> composition (element -> count); spelled "Formula:<text>"
     "[13C2]N": ({"13C": 2, "N": 1}, "[13C2]N"),
     "C2[13C1]H3": ({"C": 2, "13C": 1, "H": 3}, "C2[13C1]H3"),
     "O": ({"O": 1}, "O"),
+    "C2H2[13C2]H2O": ({"C": 2, "H": 4, "13C": 2, "O": 1}, "C2H2[13C2]H2O"),     # an element on both sides of an isotope bracket
+    "[13C2]H3N[13C]": ({"13C": 3, "H": 3, "N": 1}, "[13C2]H3N[13C]"),           # the same isotope in two brackets
 }
 GLYCANS = {"Hex": {"Hex": 1}, "Hex2": {"Hex": 2}, "HexNAc": {"HexNAc": 1}, "HexNAc2Hex3": {"HexNAc": 2, "Hex": 3}}
 UNIMODS = {"Acetyl": "Acetyl", "UNIMOD:1": "Acetyl", "U:Oxidation": "Oxidation", "Phospho": "Phospho",
